@@ -47,6 +47,22 @@ def replay_and_judge(ck, behaviours, capq, tag):
     replay_and_judge.size_bad = {}
     for ln in size_bad:
         replay_and_judge.size_bad.setdefault(run_of[ln - 1], ln)
+    # code -> spec conformance of TieredSearch.tla (cache size after every step, hit / miss per search position): MODEL-DRIFT only
+    conf = [j for j in r.json_lines if isinstance(j, dict) and "conformance" in j]
+    if conf:
+        c = conf[-1]
+        agg = ck.cov.setdefault("query_cache_model_conformance", {"steps_compared": 0, "size_differs": 0, "hit_prediction_differs": 0})
+        agg["steps_compared"] += c["conformance"]; agg["size_differs"] += len(c["size_diff"]); agg["hit_prediction_differs"] += len(c["hit_diff"])
+        # Exact agreement is not expected: the model decides "can the new vector reach the cached boundary" on an integer line,
+        # the code on floats with a conservative pre-filter, so ties and near-ties fall either way (measured on the pinned
+        # code: cache size differs after ~0.6 % of the steps, hit prediction for ~0.03 % of the searches).  A systematic
+        # disagreement - the cache protocol changed - shows as a rate far above that and is reported as MODEL-DRIFT.
+        n = max(1, c["conformance"])
+        if len(c["size_diff"]) > 0.04 * n or len(c["hit_diff"]) > 0.01 * n:
+            for kind, lst in (("query-cache size after a step", c["size_diff"]), ("cache hit / miss of a search", c["hit_diff"])):
+                for ln in lst[:2]:
+                    ck.drift("TieredSearch.tla: %s differs from the real engine in %d of %d steps (%s), e.g. run %s, trace line %d: %s"
+                             % (kind, len(lst), n, tag, run_of[ln - 1], ln, json.dumps({k: v for k, v in events[ln - 1].items() if k not in ("res", "must")})[:260]))
     return stats, events, cfgs, bad_runs
 
 
